@@ -1,10 +1,12 @@
 (* C11 - Source layout does not matter: whitespace, declaration order, file split.
-   Whitespace/comment placement: the model starts from the parse tree (layout is gone after ANTLR) and K-front + the
-   re-layout oracle of C03 cover it.  Proved here, for declaration lists of any length: rule diagnostics and reference
+   Whitespace / line breaks: the parser model (generic parser on the grammar translated from Idl.g4, tied to ANTLR by K-parse) looks at token
+   types only - two texts whose token streams agree on (type, text) have the same parse tree up to positions (C11_reformatting); that white
+   space produces no token is the `-> skip` of the grammar's WS rule (K-parse + the re-layout oracle of C03 check it on the real lexer).  Proved here too, for declaration lists of any length: rule diagnostics and reference
    bindings are invariant under permutation and under splitting into imported/importing parts.  Equality of the
    GENERATED FILES is decided on the implementation by the metamorphic correspondence of this property (permutations,
    partitions into import trees, all targets, banner line excluded). *)
 From Coq Require Import List String Bool Arith Permutation.
+From PDV Require Import Idl.GrammarDefs Idl.Lexer Idl.ParserG Idl.LayoutFree.
 From PDV Require Import Lib.StrUtil Idl.Cst Idl.Ast Idl.Resolver Idl.ResolverProofs Idl.Visitor Idl.Front Idl.ChecksProofs Idl.LayoutProofs.
 Import ListNotations.
 Open Scope string_scope. Open Scope list_scope.
@@ -34,3 +36,17 @@ Theorem C11_file_split_registry : forall (ds1 ds2 : list (list string * string *
   register_all r (ds1 ++ ds2) = match register_all r ds1 with Some r1 => register_all r1 ds2 | None => None end.
 Proof. exact (register_all_app tdef). Qed.
 Print Assumptions C11_file_split_registry.
+
+(* re-formatting: texts with the same tokens (types and texts) are parsed to the same tree up to the recorded positions, or both rejected -
+   for every lexer table and every grammar *)
+Theorem C11_reformatting : forall lrules prules start s1 s2 ls1 ls2,
+  lex_all lrules s1 = Some ls1 -> lex_all lrules s2 = Some ls2 -> has_lex_error ls1 = false -> has_lex_error ls2 = false ->
+  Forall2 same_tok (tokens_of ls1) (tokens_of ls2) ->
+  erase_o (parse_text lrules prules start s1) = erase_o (parse_text lrules prules start s2).
+Proof. exact parse_text_layout_free. Qed.
+Print Assumptions C11_reformatting.
+
+Theorem C11_every_parse_is_layout_free : forall rules toks1 toks2, Forall2 same_tok toks1 toks2 ->
+  forall fuel g pos, Forall2 rel (ParserG.parse rules toks1 fuel g pos) (ParserG.parse rules toks2 fuel g pos).
+Proof. exact parse_layout_free. Qed.
+Print Assumptions C11_every_parse_is_layout_free.
